@@ -293,6 +293,6 @@ pub fn check() -> Check {
     )
     .assume("manifests are those a payload decoder can produce: internally valid custom values, element kinds consistent, the whole manifest encodable")
     .assume("partial object names never coincide with the decompiler's default names of other objects")
-    .part(Part::new("roundtrip", 300_000, 12_000_000, 2048, case))
+    .part(Part::new("roundtrip", 600_000, 24_000_000, 2048, case))
     .min_nontrivial_pct(20.0)
 }
